@@ -227,6 +227,14 @@ class ReqPathRun(object):
                 self.w.sim.at(rto, (lambda i=f['node']: fc.rst_conns(i, 'all')), 'tcp retransmission timeout n%d' % f['node'])
         elif k == 'restart':
             fc.restart(f['node'], announce=f.get('announce'))
+        elif k == 'choke':
+            # the node stops reading from its pooled connections: their send buffers are full from now on (EAGAIN -> ConnectionBusy)
+            for nc in fc.nodes[f['node']].conns:
+                if not nc.events and not nc.closed:
+                    nc.conn.sock.room_left = 0
+                    nc.conn.sock.force_eagain = True
+            self.w.sim.rec('fault', 'send buffer full n%d' % f['node'])
+            self.w.net.count('send_buffer_full')
         elif k == 'stall':
             fc.nodes[f['node']].set_stalled(True)
         elif k == 'unstall':
